@@ -121,7 +121,7 @@ def _worker(job):
     return out
 
 
-def run_cases(comp_name, seed, n, params, explicit=None, chunk=None, inproc=False):
+def run_cases(comp_name, seed, n, params, explicit=None, chunk=None, inproc=False, start=0):
     """runs n generated cases (or the explicit list) over NPROC workers; returns list of reports"""
     if explicit is not None:
         n = len(explicit)
@@ -132,7 +132,7 @@ def run_cases(comp_name, seed, n, params, explicit=None, chunk=None, inproc=Fals
     chunk = chunk or max(1, min(250, (n + NPROC - 1) // NPROC))
     jobs = []
     for st in range(0, n, chunk):
-        idxs = list(range(st, min(n, st + chunk)))
+        idxs = list(range(start + st, start + min(n, st + chunk)))
         ex = [explicit[i] for i in idxs] if explicit is not None else None
         jobs.append((comp_name, seed, idxs, params, ex))
     ctx = multiprocessing.get_context("fork")
